@@ -3,7 +3,6 @@
 use std::panic::{catch_unwind, AssertUnwindSafe};
 use std::rc::Rc;
 
-use crate::model::Phase;
 use crate::run::{panic_message, teardown};
 use crate::trace::*;
 use crate::world::*;
@@ -48,7 +47,7 @@ fn judge_reads(w: &Rc<World>, reads: &[(usize, usize, RR)], in_handlers: bool, w
 }
 
 pub fn post_crash_protocol(w: &Rc<World>) {
-    let in_handlers = w.model.borrow().phase == Phase::Handlers;
+    let in_handlers = w.handler_phase.get();
     w.trace.borrow_mut().push(Ev::Note(format!("post-crash protocol (crash in {})", if in_handlers { "handler phase" } else { "propagation" })));
     // (1) reads
     let r1 = catch_unwind(AssertUnwindSafe(|| read_all(w)));
